@@ -1441,6 +1441,13 @@ func main() {
 	writeIfChanged(filepath.Join(*out, "GenFrameSites.v"), w.Bytes())
 	fmt.Printf("go2v: GenFrameSites.v %d NewFrame sites, %d FramePool implementations\n", nfs, nfp)
 
+	// GenC01RelSites.v (C01): every call that can give back the frame a reader is parsed into (c01relsites.go)
+	w.Reset()
+	fmt.Fprintf(&w, header, *repo)
+	nc01r, nc01f := root.c01RelSites(&w)
+	writeIfChanged(filepath.Join(*out, "GenC01RelSites.v"), w.Bytes())
+	fmt.Printf("go2v: GenC01RelSites.v %d release sites, %d releasing functions\n", nc01r, nc01f)
+
 	// GenLockSkel.v (C16): lock / return skeletons of the get-or-create functions (mapext.go)
 	w.Reset()
 	fmt.Fprintf(&w, header, *repo)
